@@ -213,6 +213,8 @@ class Sym:
         if tp is None and f.get("res"):
             tp = TRANSPARENT_CALLS.get(f["res"]["path"])
         if tp is not None and len(args) > tp:
+            if path.endswith("Layout::pad_to_align") and args[tp][0] == "ref":
+                return args[tp][1]          # takes &self, returns the (padded) layout by value
             return args[tp]
         gargs = tuple(a.get("s", "") for a in f.get("args", []) if a["k"] != "lt")
         # inline local, loop-free callees
